@@ -1,34 +1,16 @@
-# Per-property run table used by ./check. One entry per sub-run:
-#   pkg: harness package, test: regex of Test functions, checks: rapid cases per shard,
-#   shards: parallel processes with distinct rapid seeds, fuzz: native fuzz target (thorough only).
-CHECKS = {}
-
-CHECKS["C16"] = dict(
-    level="exploration",
-    rule="rapid-generated message sequences pushed through the real stream encoders and decoders "
-         "(msgappv2: MsgApp-shaped messages of 1-6 raft groups sharing one stream, entry sizes around the 1 MiB buffer limit; "
-         "message codec: all types, arbitrary fields); every/sampled truncation point; byte mutations. "
-         "distinct_nontrivial sums, per sub-run, the distinct cases that satisfy that sub-run's rule (see sub_runs).",
-    assumptions=[
-        "msgappv2 inputs are restricted to what peer.pick routes there: MsgApp with From/To equal to the groups' replica ids, group name a function of group id, FromGroup.NodeId == remote, ToGroup.NodeId == local",
-        "the stream formats carry no checksum: for corrupted bytes only termination without panic/unbounded allocation is decided; equality is decided for intact and truncated streams",
-    ],
-    quick=[
-        dict(name="v2rt", pkg="c16_codec", test="TestMsgAppV2RoundTrip", checks=6000, shards=2),
-        dict(name="v2trunc", pkg="c16_codec", test="TestMsgAppV2Truncation", checks=300, shards=2),
-        dict(name="msgrt", pkg="c16_codec", test="TestMessageRoundTrip", checks=6000, shards=1),
-        dict(name="msgtrunc", pkg="c16_codec", test="TestMessageTruncation", checks=300, shards=2),
-        dict(name="corrupt", pkg="c16_codec", test="TestCorruptStreamNoPanic", checks=8000, shards=1),
-        dict(name="known", pkg="c16_codec", test="TestKnown.*", checks=1, shards=1),
-    ],
-    thorough=[
-        dict(name="v2rt", pkg="c16_codec", test="TestMsgAppV2RoundTrip", checks=40000, shards=6),
-        dict(name="v2trunc", pkg="c16_codec", test="TestMsgAppV2Truncation", checks=2500, shards=4),
-        dict(name="msgrt", pkg="c16_codec", test="TestMessageRoundTrip", checks=40000, shards=2),
-        dict(name="msgtrunc", pkg="c16_codec", test="TestMessageTruncation", checks=2500, shards=3),
-        dict(name="corrupt", pkg="c16_codec", test="TestCorruptStreamNoPanic", checks=100000, shards=1),
-        dict(name="known", pkg="c16_codec", test="TestKnown.*", checks=1, shards=1),
-        dict(name="fuzzv2", pkg="c16_codec", fuzz="FuzzMsgAppV2Decode", fuzztime="90s", parallel=6),
-        dict(name="fuzzmsg", pkg="c16_codec", fuzz="FuzzMessageDecode", fuzztime="60s", parallel=4),
-    ],
-)
+# Loads table/CNN.py files. Each defines
+#   SPEC: level, rule, assumptions, quick=[sub-runs], thorough=[sub-runs]
+#         sub-run keys: name, pkg (harness package dir), test (regex of Test functions), checks (rapid cases per shard),
+#         shards (parallel processes with distinct rapid seeds), optional env={}, timeout (s), steps (rapid.steps),
+#         or fuzz=<FuzzTarget>, fuzztime, parallel for a native fuzz campaign (thorough only)
+#   TEXT: engine, design_ref, technique, level_text, level_note   (goes into MANIFEST.json)
+import glob, importlib.util, os
+CHECKS, TEXT = {}, {}
+for fn in sorted(glob.glob(os.path.join(os.path.dirname(os.path.abspath(__file__)), "table", "C*.py"))):
+    pid = os.path.basename(fn)[:-3]
+    spec = importlib.util.spec_from_file_location("table_" + pid, fn)
+    mod = importlib.util.module_from_spec(spec)
+    spec.loader.exec_module(mod)
+    CHECKS[pid] = mod.SPEC
+    if hasattr(mod, "TEXT"):
+        TEXT[pid] = mod.TEXT
